@@ -173,7 +173,27 @@ func (t *etr) expr(e ast.Expr, env *eenv) term {
 			}
 			return term{"Z.of_nat (List.length (" + a.s + "))", kZ}
 		}
-		if sel, ok := x.Fun.(*ast.SelectorExpr); ok && fn != "slices.IndexFunc" {
+		// the receiver is a package, or a component of the transport (r.vk, r.cache, ...): not a value of the model
+		isPkg := func(e ast.Expr) bool {
+			if _, bound := env.vars[exprString(e)]; bound {
+				return false
+			}
+			for {
+				switch y := e.(type) {
+				case *ast.SelectorExpr:
+					if _, bound := env.vars[exprString(y)]; bound {
+						return false
+					}
+					e = y.X
+					continue
+				case *ast.Ident:
+					_, bound := env.vars[y.Name]
+					return !bound
+				}
+				return false
+			}
+		}
+		if sel, ok := x.Fun.(*ast.SelectorExpr); ok && !isPkg(sel.X) {
 			recv := t.expr(sel.X, env)
 			if recv.k == kHdr && sel.Sel.Name == "Get" && len(x.Args) == 1 {
 				if v, ok := t.ce.eval(x.Args[0]); ok && v.s != nil {
@@ -184,6 +204,32 @@ func (t *etr) expr(e ast.Expr, env *eenv) term {
 				if m, ok := mt[sel.Sel.Name]; ok {
 					return term{fmt.Sprintf(m.tmpl, recv.s), m.k}
 				}
+			}
+		}
+		if sel, ok := x.Fun.(*ast.SelectorExpr); ok && sel.Sel.Name == "Clone" && len(x.Args) == 1 {
+			if v, bound := env.vars[exprString(sel.X)]; bound && v.k == kReq {
+				return v // a deep copy: the same value
+			}
+		}
+		if fn == "strings.Join" && len(x.Args) == 2 {
+			// strings.Join(h.Values("N"), ","): all field lines of N joined
+			if vc, ok := x.Args[0].(*ast.CallExpr); ok {
+				if vs, ok := vc.Fun.(*ast.SelectorExpr); ok && vs.Sel.Name == "Values" && len(vc.Args) == 1 {
+					h := t.expr(vs.X, env)
+					n, ok1 := t.ce.eval(vc.Args[0])
+					sep, ok2 := t.ce.eval(x.Args[1])
+					if h.k == kHdr && ok1 && ok2 && n.s != nil && sep.s != nil && len(*sep.s) == 1 {
+						return term{fmt.Sprintf("join [%d] (hvalues %s (%s))", (*sep.s)[0], coqString(*n.s), h.s), kS}
+					}
+				}
+			}
+		}
+		if fn == "r.vk.VaryKey" && len(x.Args) == 2 {
+			return term{"make_vary_key (" + t.expr(x.Args[0], env).s + ") (" + t.expr(x.Args[1], env).s + ")", kS}
+		}
+		if sel, ok := x.Fun.(*ast.SelectorExpr); ok && sel.Sel.Name == "DateHeader" && len(x.Args) == 0 {
+			if recv := t.expr(sel.X, env); recv.k == kEntry {
+				return term{"date_header (p_hdr (response_of (" + recv.s + ")))", kZ}
 			}
 		}
 		if fn == "slices.IndexFunc" && len(x.Args) == 2 {
@@ -202,6 +248,9 @@ func (t *etr) expr(e ast.Expr, env *eenv) term {
 				return term{"true", kB}
 			}
 			return term{"negb (" + a.s + ")", kB}
+		}
+		if x.Op == token.AND {
+			return t.expr(x.X, env) // &T{...}: the value
 		}
 		if x.Op == token.SUB {
 			if v, ok := t.ce.eval(e); ok && v.i != nil {
@@ -281,6 +330,26 @@ func (t *etr) expr(e ast.Expr, env *eenv) term {
 			}
 		}
 	case *ast.CompositeLit:
+		if exprString(x.Type) == "Response" || exprString(x.Type) == "ResponseRef" {
+			f := map[string]string{}
+			for _, el := range x.Elts {
+				kv, ok := el.(*ast.KeyValueExpr)
+				if !ok {
+					die("%s: positional %s literal", t.name, exprString(x.Type))
+				}
+				f[exprString(kv.Key)] = t.expr(kv.Value, env).s
+			}
+			if exprString(x.Type) == "Response" {
+				if len(f) != 4 || f["Data"] == "" || f["RequestedAt"] == "" || f["ReceivedAt"] == "" || f["ID"] == "" {
+					die("%s: Response literal without Data / RequestedAt / ReceivedAt / ID", t.name)
+				}
+				return term{fmt.Sprintf("entry_of (%s) (%s) (%s) (%s)", f["ID"], f["Data"], f["RequestedAt"], f["ReceivedAt"]), kEntry}
+			}
+			if len(f) != 4 || f["Vary"] == "" || f["VaryResolved"] == "" || f["ReceivedAt"] == "" || f["ResponseID"] == "" {
+				die("%s: ResponseRef literal without Vary / VaryResolved / ReceivedAt / ResponseID", t.name)
+			}
+			return term{fmt.Sprintf("{| r_id := %s; r_vary := %s; r_resolved := %s; r_recv := %s |}", f["ResponseID"], f["Vary"], f["VaryResolved"], f["ReceivedAt"]), kO}
+		}
 		if strings.HasSuffix(exprString(x.Type), "RevalidationContext") {
 			fields := map[string]string{"URLKey": "[]", "Start": "0", "End": "0", "CCReq": "[]", "Stored": "", "Freshness": "", "Refs": "[]", "RefIndex": "0", "NoStale": "false"}
 			for _, el := range x.Elts {
@@ -325,6 +394,13 @@ func (t *etr) leaf(results []ast.Expr, env *eenv) string {
 			fn := exprString(c.Fun)
 			arg := func(i int) string { return "(" + t.expr(c.Args[i], env).s + ")" }
 			switch fn {
+			case "r.cache.SetRefs":
+				// responseCache.SetRefs removes repeated references; StoreResponse's caller goes on with the response it passed
+				r, ok := env.vars["resp"]
+				if !ok {
+					die("%s: SetRefs leaf without a response in scope", t.name)
+				}
+				return fmt.Sprintf("SetRefs %s (unique_refs %s) (Ret (%s))", arg(0), arg(1), r.s)
 			case "make504Response":
 				return "Ret (OResp response_504)"
 			case "r.handleCacheMiss":
@@ -486,6 +562,23 @@ func (t *etr) effect(lhs []string, call *ast.CallExpr, env *eenv, k func(*eenv) 
 		return fmt.Sprintf("%s <- store_response (%s) (%s) (%s) (%s) (%s) (%s) (%s) ;; ", append([]any{r1}, a...)...) + k(e2), true
 	case fn == "r.ci.InvalidateCache" && len(call.Args) == 4:
 		return fmt.Sprintf("invalidate_cache (%s) (%s) (%s) (%s) (%s)", arg(0).s, arg(1).s, arg(2).s, arg(3).s, k(env)), true
+	case fn == "removeHopByHopHeaders" && len(call.Args) == 1:
+		a := arg(0)
+		e2 := env.clone()
+		e2.vars[exprString(call.Args[0])] = term{fmt.Sprintf("with_hdr (%s) (remove_hop_by_hop (p_hdr (%s)))", a.s, a.s), kResp}
+		return k(e2), true
+	case fn == "r.cache.Set" && len(call.Args) == 2:
+		// responseCache.Set serialises the response first (reading its body to the end): when the body stream fails,
+		// nothing reaches the backend and the response is left without its body
+		id, ent := arg(0), arg(1)
+		data, ok1 := env.vars[exprString(call.Args[1])+".Data"]
+		dataVar, ok2 := env.vars[exprString(call.Args[1])+".DataVar"]
+		if !ok1 || !ok2 {
+			die("%s: cache.Set of something that is not a Response literal bound just before", t.name)
+		}
+		eBad := env.clone()
+		eBad.vars[dataVar.s] = term{fmt.Sprintf("{| p_status := p_status (%s); p_hdr := p_hdr (%s); p_body := -1; p_body_ok := false |}", data.s, data.s), kResp}
+		return fmt.Sprintf("if p_body_ok (%s) then SetEntry (%s) (%s) (%s) else %s", data.s, id.s, ent.s, k(env), k(eBad)), true
 	case fn == "updateStoredHeaders" && len(call.Args) == 2:
 		a, b := arg(0), arg(1)
 		e2 := env.clone()
@@ -559,6 +652,14 @@ func (t *etr) block(stmts []ast.Stmt, env *eenv, rest func(*eenv) string) string
 			}
 		}
 		return tail(e2)
+	case *ast.GoStmt:
+		if exprString(s.Call.Fun) == "r.backgroundRevalidate" && len(s.Call.Args) == 5 {
+			a := make([]any, 5)
+			for i := range a {
+				a[i] = t.expr(s.Call.Args[i], env).s
+			}
+			return fmt.Sprintf("Spawn (background_revalidate (%s) (%s) (%s) (%s) (%s)) (", a...) + tail(env) + ")"
+		}
 	case *ast.DeferStmt:
 		return tail(env)
 	case *ast.SendStmt:
@@ -611,6 +712,40 @@ func (t *etr) block(stmts []ast.Stmt, env *eenv, rest func(*eenv) string) string
 				}
 			}
 			if len(s.Lhs) == 1 {
+				if c, ok := s.Rhs[0].(*ast.CallExpr); ok && exprString(c.Fun) == "maps.Collect" && len(c.Args) == 1 {
+					if ic, ok := c.Args[0].(*ast.CallExpr); ok && exprString(ic.Fun) == "r.vhn.NormalizeVaryHeader" && len(ic.Args) == 2 {
+						// the nominated request fields, normalised; header names outside the modelled classes leave the model
+						m := t.gensym("resolved")
+						e2 := env.clone()
+						e2.vars[exprString(s.Lhs[0])] = term{m, kO}
+						return fmt.Sprintf("match normalize_vary (%s) (%s) with None => Unmodelled | Some %s => %s end", t.expr(ic.Args[0], env).s, t.expr(ic.Args[1], env).s, m, tail(e2))
+					}
+				}
+				if c, ok := s.Rhs[0].(*ast.CallExpr); ok && exprString(c.Fun) == "append" && len(c.Args) == 2 && exprString(c.Args[0]) == exprString(s.Lhs[0]) {
+					l := t.expr(c.Args[0], env)
+					e2 := env.clone()
+					e2.vars[exprString(s.Lhs[0])] = term{"(" + l.s + ") ++ [Some (" + t.expr(c.Args[1], env).s + ")]", kRefs}
+					return tail(e2)
+				}
+				if ix, ok := s.Lhs[0].(*ast.IndexExpr); ok && s.Tok == token.ASSIGN {
+					l := t.expr(ix.X, env)
+					e2 := env.clone()
+					e2.vars[exprString(ix.X)] = term{fmt.Sprintf("replace_nth (Z.to_nat (%s)) (Some (%s)) (%s)", t.expr(ix.Index, env).s, t.expr(s.Rhs[0], env).s, l.s), kRefs}
+					return tail(e2)
+				}
+				if u, ok := s.Rhs[0].(*ast.UnaryExpr); ok && u.Op == token.AND {
+					if cl, ok := u.X.(*ast.CompositeLit); ok && exprString(cl.Type) == "Response" {
+						e2 := env.clone()
+						e2.vars[exprString(s.Lhs[0])] = t.expr(s.Rhs[0], env)
+						for _, el := range cl.Elts {
+							if kv, ok := el.(*ast.KeyValueExpr); ok && exprString(kv.Key) == "Data" {
+								e2.vars[exprString(s.Lhs[0])+".Data"] = t.expr(kv.Value, env)
+								e2.vars[exprString(s.Lhs[0])+".DataVar"] = term{exprString(kv.Value), kO}
+							}
+						}
+						return tail(e2)
+					}
+				}
 				// x := e  /  x = e : (re)binding of a pure value
 				name := exprString(s.Lhs[0])
 				v := t.expr(s.Rhs[0], env)
@@ -650,8 +785,32 @@ func (t *etr) block(stmts []ast.Stmt, env *eenv, rest func(*eenv) string) string
 			}
 		}
 	case *ast.IfStmt:
+		if s.Else == nil && s.Init == nil && len(s.Body.List) == 1 {
+			if rs, ok := s.Body.List[0].(*ast.RangeStmt); ok && rs.Value == nil && len(rs.Body.List) == 1 {
+				// if q { for field := range seq { X.Header.Del(field) } }: the fields named by a qualified no-cache are removed
+				if es, ok := rs.Body.List[0].(*ast.ExprStmt); ok {
+					if dc, ok := es.X.(*ast.CallExpr); ok && len(dc.Args) == 1 && exprString(dc.Args[0]) == exprString(rs.Key) {
+						if ds, ok := dc.Fun.(*ast.SelectorExpr); ok && ds.Sel.Name == "Del" {
+							if hs, ok := ds.X.(*ast.SelectorExpr); ok && hs.Sel.Name == "Header" {
+								obj := t.expr(hs.X, env)
+								seq := t.expr(rs.X, env)
+								c := t.cond(s.Cond, env)
+								e2 := env.clone()
+								e2.vars[exprString(hs.X)] = term{fmt.Sprintf("with_hdr (%s) (if %s then fold_left (fun acc fld => hdel fld acc) (match %s with Some l => l | None => [] end) (p_hdr (%s)) else p_hdr (%s))", obj.s, c, seq.s, obj.s, obj.s), kResp}
+								return tail(e2)
+							}
+						}
+					}
+				}
+			}
+		}
 		if s.Else != nil {
-			die("%s: if with else", t.name)
+			eb, ok := s.Else.(*ast.BlockStmt)
+			if !ok || s.Init != nil {
+				die("%s: else-if / if-header with else", t.name)
+			}
+			c := t.cond(s.Cond, env)
+			return "if " + c + " then " + t.block(s.Body.List, env, tail) + " else " + t.block(eb.List, env, tail)
 		}
 		if s.Init != nil {
 			// if swr, ok := ccResp.StaleWhileRevalidate(); ok { ... }
@@ -690,6 +849,37 @@ func (t *etr) block(stmts []ast.Stmt, env *eenv, rest func(*eenv) string) string
 		return "if " + c + " then " + t.block(s.Body.List, env, tail) + " else " + tail(env)
 	case *ast.SwitchStmt:
 		if s.Init == nil && s.Tag == nil {
+			// a switch that only makes room in a slice (x = make(...), x = slices.Grow(x, n)) changes no contents
+			room := true
+			for _, cc := range s.Body.List {
+				for _, b := range cc.(*ast.CaseClause).Body {
+					as, ok := b.(*ast.AssignStmt)
+					if !ok || as.Tok != token.ASSIGN || len(as.Lhs) != 1 || len(as.Rhs) != 1 {
+						room = false
+						continue
+					}
+					rc, ok := as.Rhs[0].(*ast.CallExpr)
+					if !ok {
+						room = false
+						continue
+					}
+					fn := exprString(rc.Fun)
+					lhs := exprString(as.Lhs[0])
+					switch {
+					case fn == "make" && len(rc.Args) == 3 && exprString(rc.Args[1]) == "0":
+						// only for a nil slice: guarded by `x == nil`
+						if len(cc.(*ast.CaseClause).List) != 1 || exprString(cc.(*ast.CaseClause).List[0]) != lhs+" == nil" {
+							room = false
+						}
+					case fn == "slices.Grow" && len(rc.Args) == 2 && exprString(rc.Args[0]) == lhs:
+					default:
+						room = false
+					}
+				}
+			}
+			if room {
+				return tail(env)
+			}
 			// switch { case c1: A; case c2: B; fallthrough; default: C }
 			clauses := s.Body.List
 			var from func(i int, e *eenv, matched bool) string
@@ -736,6 +926,7 @@ type effSpec struct {
 	unit     bool
 	env      func() *eenv
 	inner    bool // translate the body of the function literal started with `go` inside fn
+	respLeaf bool // the function returns only an error; its caller goes on with the response it passed
 	pair     bool // the parameters (resp, err) are given as one origin_reply `rep`: the body is translated once per case
 }
 
